@@ -186,7 +186,9 @@ def random_tree(rng, cfg=None):
             x = rng.random()
             if budget[0] > 1 and depth < cfg.max_depth and x < 0.45:
                 budget[0] -= 1
-                nv = allvars[len(defined)] if len(defined) < len(allvars) else None
+                nv = allvars[len(set(defined))] if len(set(defined)) < len(allvars) else None
+                if not cfg.wellformed and defined and rng.random() < 0.12:
+                    nv = rng.choice(defined)          # ill-formed: a variable defined a second time
                 if nv is None:
                     continue
                 branches.append((rl_a, build(nv, depth + 1)))
